@@ -212,4 +212,5 @@ Proof.
     destruct (d_deadline_hit d) eqn:Eh; auto. cbn [orb] in Heqb.
     rewrite forallb_forall in Heqb. specialize (Heqb r Hsn).
     apply nmem_In in Hfl. rewrite Hfl in Heqb. cbn in Heqb. fold (cancelled s r) in Heqb. congruence.
-Qed.
+
+Show.
